@@ -263,7 +263,19 @@ class Engine(ABCMeta):
             # the parameters into the recognized data type class.
             equivalent_data_type = registry.equivalents.get(type(data_type))
             if equivalent_data_type is not None:
-                return type(equivalent_data_type)(**data_type.__dict__)
+                # only the parameters of the constructor: the instance also
+                # holds derived fields (e.g. Decimal._exp)
+                equivalent_cls = type(equivalent_data_type)
+                init_params = inspect.signature(
+                    equivalent_cls.__init__
+                ).parameters
+                return equivalent_cls(
+                    **{
+                        k: v
+                        for k, v in data_type.__dict__.items()
+                        if k in init_params
+                    }
+                )
 
         try:
             return registry.dispatch(data_type)
